@@ -406,3 +406,128 @@ Fixpoint play_case (fuel : nat) (e : env) (st : pstate)
             b2z (close_to (nth 2 sobs (0, 0)) (st_fill st'))]
         ++ play_case fuel e st' rest
   end.
+
+(* ---------- multi-string PLAY (Tandy/PCjr syntax): three voices, three play states ----------
+   Sound.play_ keeps one PlayState per voice and reads ONE command per voice in turn:
+       voices = [0, 1, 2]
+       while voices:
+           for voice in voices:
+               c = next command character of mml[voice]
+               if c == b'': voices.remove(voice); continue      # removal DURING the iteration
+               ... execute the command on self._state[voice] ...
+   `sched` is the order of turns that loop takes (it depends only on the numbers of commands); `run_sched`
+   executes any order of turns.  Not modelled here: the V command, the 110 Hz floor of the Tandy tone generator,
+   the synchronisation markers, and X substrings taking a turn of their own (the scanner expands them in place);
+   the MF/MB flag is kept per voice in the model (it is one global flag in the implementation). *)
+Inductive voice := V0 | V1 | V2.
+Definition tri (A : Type) : Type := (A * A * A)%type.
+
+Definition get3 {A} (v : voice) (t : tri A) : A :=
+  let '(a, b, c) := t in match v with V0 => a | V1 => b | V2 => c end.
+Definition set3 {A} (v : voice) (x : A) (t : tri A) : tri A :=
+  let '(a, b, c) := t in match v with V0 => (x, b, c) | V1 => (a, x, c) | V2 => (a, b, x) end.
+Definition voice_eqb (v w : voice) : bool :=
+  match v, w with V0, V0 | V1, V1 | V2, V2 => true | _, _ => false end.
+
+(* execute the turns of `turns` (a turn of a voice whose string is exhausted does nothing); the first rejected
+   command ends the statement.  Result: tone signals tagged with their voice, states, unread commands, status *)
+Fixpoint run_sched (turns : list voice) (sts : tri pstate) (css : tri (list cmd))
+  : list (voice * event) * tri pstate * tri (list cmd) * res unit :=
+  match turns with
+  | [] => ([], sts, css, Ok tt)
+  | v :: r =>
+      match get3 v css with
+      | [] => run_sched r sts css
+      | c :: cs' =>
+          match step (get3 v sts) c with
+          | Ok (st', evs) =>
+              let '(evs', sts', css', status) := run_sched r (set3 v st' sts) (set3 v cs' css) in
+              (map (pair v) evs ++ evs', sts', css', status)
+          | Err e => ([], sts, css, Err e)
+          | Host k => ([], sts, css, Host k)
+          | OutOfFuel => ([], sts, css, OutOfFuel)
+          end
+      end
+  end.
+
+(* the tone signals of one voice *)
+Fixpoint proj (v : voice) (evs : list (voice * event)) : list event :=
+  match evs with
+  | [] => []
+  | (w, e) :: r => if voice_eqb w v then e :: proj v r else proj v r
+  end.
+
+(* one pass of `for voice in voices` over the active list A with n commands left per voice: a voice with nothing
+   left is removed, and because the list shrinks under the iterator the voice after it is skipped in this pass *)
+Fixpoint pass (A : list voice) (n : tri nat) : list voice * list voice * tri nat :=
+  match A with
+  | [] => ([], [], n)
+  | x :: r =>
+      match get3 x n with
+      | O => match r with
+             | [] => ([], [], n)
+             | y :: r' => let '(ex, A', n') := pass r' n in (ex, y :: A', n')
+             end
+      | S k => let '(ex, A', n') := pass r (set3 x k n) in (x :: ex, x :: A', n')
+      end
+  end.
+
+Fixpoint sched_from (fuel : nat) (A : list voice) (n : tri nat) : list voice :=
+  match fuel with
+  | O => []
+  | S f => match A with
+           | [] => []
+           | _ :: _ => let '(ex, A', n') := pass A n in ex ++ sched_from f A' n'
+           end
+  end.
+
+Definition sched (n : tri nat) : list voice :=
+  let '(a, b, c) := n in sched_from (a + b + c + 4) [V0; V1; V2] n.
+
+Definition all_read (css : tri (list cmd)) : bool :=
+  let '(a, b, c) := css in
+  match a, b, c with [], [], [] => true | _, _, _ => false end.
+
+(* one PLAY statement with up to three strings (an omitted operand is the empty string) *)
+Definition play_multi (fuel : nat) (e : env) (sts : tri pstate) (ss : tri (list Z))
+  : list (voice * event) * tri pstate * res unit :=
+  let '(s0, s1, s2) := ss in
+  match s0, s1, s2 with
+  | [], [], [] => ([], sts, Err missing_operand)
+  | _, _, _ =>
+      let css := (lex fuel e s0, lex fuel e s1, lex fuel e s2) in
+      let n := (length (lex fuel e s0), length (lex fuel e s1), length (lex fuel e s2)) in
+      let '(evs, sts', css', status) := run_sched (sched n) sts css in
+      match status with
+      | Ok _ => if all_read css' then (evs, sts', Ok tt) else (evs, sts', OutOfFuel)
+      | _ => (evs, sts', status)
+      end
+  end.
+
+(* canonical encoding: per voice, the records of the statements that voice takes part in (as play_case) *)
+Definition mstmt : Type := (tri (list Z) * tri bool * tri (list (Z * Z)) * tri (list (Z * Z)))%type.
+
+Definition voice_code (v : voice) : Z := match v with V0 => 0 | V1 => 1 | V2 => 2 end.
+
+(* result: the three per-voice records, and the voices of all tone signals in the order they were queued *)
+Fixpoint play_multi_case (fuel : nat) (e : env) (sts : tri pstate) (stmts : list mstmt)
+  : tri (list Z) * list Z :=
+  match stmts with
+  | [] => (([], [], []), [])
+  | (ss, pres, obs, sobs) :: rest =>
+      let '(evs, sts', status) := play_multi fuel e sts ss in
+      let enc := fun v : voice =>
+        if get3 v pres then
+          let ev := proj v evs in
+          let st' := get3 v sts' in
+          (zlen ev :: enc_events ev (get3 v obs)) ++ enc_status status
+            ++ [st_octave st'; b2z (st_fg st');
+                b2z (close_to (nth 0 (get3 v sobs) (0, 0)) (st_length st'));
+                b2z (close_to (nth 1 (get3 v sobs) (0, 0)) (st_tempo st'));
+                b2z (close_to (nth 2 (get3 v sobs) (0, 0)) (st_fill st'))]
+        else [] in
+      let '((a, b, c), order) := play_multi_case fuel e sts' rest in
+      ((enc V0 ++ a, enc V1 ++ b, enc V2 ++ c), map (fun p => voice_code (fst p)) evs ++ order)
+  end.
+
+Definition flat3 (t : tri (list Z) * list Z) : list Z := let '((a, b, c), order) := t in a ++ b ++ c ++ order.
